@@ -1,6 +1,9 @@
 import Atomman.C05
 import Atomman.C05_Hist
+import Atomman.C05_Src
+import Atomman.Generated.WrapSource
 open Atomman Atomman.C05
+open Atomman.Generated
 
 /-
   line protocol (all numbers exact rationals):
@@ -18,6 +21,14 @@ open Atomman Atomman.C05
            others    "B vects(9) origin(3) | pos(3n)"
            failure   "E assert" / "E value" (singular cell); the history ends there
       The history runs on the object-level model `CSys` (cached reciprocal vectors, clean-up of the setter).
+    apiwrap FLAG px py pz n v(9) o(3) pos(3n)          `system.wrap(FLAG)` with the option handling, run on the GENERATED
+      -> "R ret(0/1) | vects(9) origin(3) | pos(3n) | flags(3n, only if ret)"      statement list `WrapSource.wrapBody`
+    apibox SCALE px py pz n v(9) o(3) pos(3n) ; v'(9) o'(3)     `system.box_set(vects=v', origin=o', scale=SCALE)`
+      -> "B vects(9) origin(3) | pos(3n)"  or err:type                              (generated `boxSet*Body`)
+    apinorm STYLE FLAG px py pz n v(9) o(3) pos(3n)     `system.normalize(STYLE, FLAG)` (generated `normalizeBody`)
+      -> "R ret(0/1) | vects(9) origin(3) | pos(3n) | transform(9)"  or err:value / err:assert
+    apilmp FLAG px py pz n …                            `atomman.lammps.normalize(system, FLAG)`
+      FLAG / SCALE / STYLE: omit | none | b0 | b1 | i:<int> | s:<text without blanks> | f0 | f1 | np0 | np1
   errors: err:format (malformed line), err:value (singular cell or no atoms),
           err:assert (an assertion of the code fails: box lengths not positive, transform not orthonormal)
 -/
@@ -111,7 +122,82 @@ def runHist (c : CSys Rat) : List (Op Rat) → List String
         ++ showBool (decide (triple before.box.vects < 0))) :: runHist r.1 ops
     | _, .unit => ("B " ++ showState r.1) :: runHist r.1 ops
 
+/-- a Python value on the wire; `omit` = the argument is not passed. -/
+def parsePyArg (t : String) : Option (Option PyVal) :=
+  if t = "omit" then some none
+  else if t = "none" then some (some .none)
+  else if t = "b0" then some (some (.bool false))
+  else if t = "b1" then some (some (.bool true))
+  else if t = "f0" then some (some (.float false))
+  else if t = "f1" then some (some (.float true))
+  else if t = "np0" then some (some (.npbool false))
+  else if t = "np1" then some (some (.npbool true))
+  else if t.startsWith "i:" then (t.drop 2).toString.toInt?.map (fun n => some (.int n))
+  else if t.startsWith "s:" then some (some (.str (t.drop 2).toString))
+  else none
+
+def errOf : Err → String
+  | .typeError => err "type"
+  | .valueError => err "value"
+  | .assertion => err "assert"
+
+/-- `lammps.normalize(system, flag)` through the generated statement list. -/
+def apiLmp (c : CSys Rat) (flag : Option PyVal) : String :=
+  if !angleGuard ratSqrt (c.flipped paramsRat).box.vects then err "value" else
+  match (runStmts paramsRat (St.init c c.box) WrapSource.normalizeBody).normalized with
+  | none => err "assert"
+  | some z =>
+    if !transformOKWith normTol WrapSource.assertOrthoAtol WrapSource.assertOrthoPairs z.transform then err "assert" else
+    let ret := WrapSource.lmpReturnsTransform (flag.getD WrapSource.lmpFlagDefault)
+    "R " ++ showBool ret ++ " | " ++ showBox z.box ++ " | " ++ showRats (flat z.pos) ++ " | " ++ showRats z.transform.toList
+
+def handleApi (toks : List String) : Option String :=
+  match toks with
+  | "apiwrap" :: fl :: px :: py :: pz :: n :: rest =>
+    match parsePyArg fl, parseReq px py pz n rest with
+    | some flag, some r =>
+      if M3.det r.box.vects = 0 || r.pos.isEmpty then some (err "value") else
+      let s := runStmts paramsRat (St.init ⟨r.box, none, r.pbc, r.pos⟩ r.box) WrapSource.wrapBody
+      let ret := WrapSource.wrapReturnsFlags (flag.getD WrapSource.wrapFlagDefault)
+      some ("R " ++ showBool ret ++ " | " ++ showState s.c ++ (if ret then " | " ++ showInts (flatI s.flags) else ""))
+    | _, _ => some (err "format")
+  | "apibox" :: sc :: px :: py :: pz :: n :: rest =>
+    match splitOn rest ";" with
+    | [head, tail] =>
+      match parsePyArg sc, parseReq px py pz n head, parseRats? tail with
+      | some scale, some r, some xs =>
+        if xs.length ≠ 12 then some (err "format") else
+        match M3.ofList? (xs.take 9), V3.ofList? (xs.drop 9) with
+        | some v, some o =>
+          if M3.det r.box.vects = 0 || r.pos.isEmpty then some (err "value") else
+          let sv := scale.getD WrapSource.boxSetScaleDefault
+          if !WrapSource.boxSetAccepts sv then some (errOf WrapSource.boxSetRefusal) else
+          let body := if WrapSource.boxSetScaledBranch sv then WrapSource.boxSetScaledBody else WrapSource.boxSetPlainBody
+          let s := runStmts paramsRat (St.init ⟨r.box, none, r.pbc, r.pos⟩ ⟨v, o⟩) body
+          if M3.det s.c.box.vects = 0 then some (err "value") else
+          some ("B " ++ showState s.c)
+        | _, _ => some (err "format")
+      | _, _, _ => some (err "format")
+    | _ => some (err "format")
+  | "apinorm" :: st :: fl :: px :: py :: pz :: n :: rest =>
+    match parsePyArg st, parsePyArg fl, parseReq px py pz n rest with
+    | some style, some flag, some r =>
+      if style.getD WrapSource.normStyleDefault ≠ WrapSource.normStyleAccepted then some (errOf WrapSource.normStyleRefusal) else
+      if M3.det r.box.vects = 0 || r.pos.isEmpty then some (err "value") else
+      some (apiLmp ⟨r.box, none, r.pbc, r.pos⟩ (some (flag.getD WrapSource.normFlagDefault)))
+    | _, _, _ => some (err "format")
+  | "apilmp" :: fl :: px :: py :: pz :: n :: rest =>
+    match parsePyArg fl, parseReq px py pz n rest with
+    | some flag, some r =>
+      if M3.det r.box.vects = 0 || r.pos.isEmpty then some (err "value") else
+      some (apiLmp ⟨r.box, none, r.pbc, r.pos⟩ flag)
+    | _, _ => some (err "format")
+  | _ => none
+
 def handleC05 (toks : List String) : String :=
+  match handleApi toks with
+  | some out => out
+  | none =>
   match toks with
   | "wrap" :: px :: py :: pz :: n :: rest =>
     match parseReq px py pz n rest with
